@@ -64,46 +64,81 @@ def run(ctx):
         stores = [i for i in f.insts() if i.op == 'store' and i.ops[1] in A]
         if not stores:
             return ['nothing is ever stored into the filtered list']
-        counters = set()
+        from ..poly import PolyCtx as _PC, Poly as _Pl
+        from ..loops import loops_of as _lo, innermost as _inn
+        from ..cfg import dominators as _doms, dominates as _dom
+        pc = _PC(P, f, C)
+        LS = _lo(P, f, pc)
+        idom = _doms(f)
+        pos_atoms = set()
         for s in stores:
             val = C.val(s.ops[0])
             F = Facts(P, f, s.bb)
-            vd = f.defs.get(strip_ptr_casts(f, s.ops[0]))
-            from_caller = vd is not None and vd.op == 'load' and strip_ptr_casts(f, f.defs[vd.ops[0]].ops[0] if f.defs.get(vd.ops[0]) is not None and f.defs[vd.ops[0]].op == 'getelementptr' else vd.ops[0]) in (frags,) 
             ok = any(p == 'eq' and b == '0' and a.startswith('@is_invalid_fragment(') and val in a for p, a, b in F.facts)
             if not ok:
                 problems.append(f'line {s.line}: {val} is stored into the list without a dominating is_invalid_fragment(desc, that fragment) == 0')
-            g = f.defs.get(s.ops[1])
-            idx = strip_int_casts(f, g.ops[-1]) if g is not None and g.op == 'getelementptr' else None
-            if idx:
-                counters.add(idx)
-        # counter: a phi incremented by one in the blocks that store
-        if len(counters) != 1:
-            problems.append(f'list slots are addressed by {sorted(map(C.val, counters))} (one running counter expected)')
-        else:
-            cnt = next(iter(counters))
-            cd = f.defs.get(cnt)
-            incs = [i for i in f.insts() if i.op == 'add' and cnt in i.ops and '1' in i.ops]
-            if cd is None or cd.op != 'phi' or not incs:
-                problems.append('the slot counter is not a running count of accepted fragments')
+            L = _inn(LS, s.bb)
+            root, off = (L.pc if L is not None else pc).ptr(s.ops[1])
+            slot = _PC.div(off, 8)
+            ats = [a_ for a_ in slot.atoms() if a_.startswith('%')]
+            if len(ats) == 1 and slot == _Pl.atom(ats[0]):
+                pos_atoms.add(ats[0])
             else:
-                store_blocks = {s.bb for s in stores}
-                if any(i.bb not in store_blocks for i in incs):
-                    problems.append('the counter is incremented outside the accepting branch')
-                n = strip_int_casts(f, cnt_arg)
-                seenp, stack, hit = set(), [n], False
-                while stack:
-                    x = strip_int_casts(f, stack.pop())
-                    if x == cnt:
-                        hit = True; break
-                    if x in seenp:
+                pos_atoms.add(str(slot))
+        # the write position: a loop-carried value (an index or a walking pointer) that starts at slot 0 and advances by one slot
+        # exactly on the paths that store; the count handed to the consumer is that position
+        if len(pos_atoms) != 1 or f.defs.get(next(iter(pos_atoms))) is None or f.defs[next(iter(pos_atoms))].op != 'phi':
+            problems.append(f'list slots are addressed by {sorted(pos_atoms)} (one running write position expected)')
+        else:
+            pos = next(iter(pos_atoms))
+            ph = f.defs[pos]
+            isptr = ph.ty.endswith('*')
+            def slot_of(v):
+                if isptr:
+                    r_, o_ = pc.ptr(v)
+                    return _PC.div(o_, 8)
+                return pc.val(v)
+            Lp = _inn(LS, ph.bb)
+            store_blocks = {s.bb for s in stores}
+            def leaves(v, lab, seen):
+                d = f.defs.get(strip_int_casts(f, v) if not isptr else strip_ptr_casts(f, v))
+                if d is not None and d.op == 'phi' and d is not ph and d.res not in seen and (Lp is None or d.bb in Lp.body):
+                    out = []
+                    for x, l2 in d.incoming:
+                        out += leaves(x, l2, seen | {d.res})
+                    return out
+                return [(v, f.blocks[lab])]
+            for v, lab in ph.incoming:
+                inside = Lp is not None and f.blocks[lab] in Lp.body
+                if not inside:
+                    if not slot_of(v).is_zero():
+                        problems.append(f'the write position starts at slot {slot_of(v)}, not at the beginning of the list')
+                    continue
+                for lv, lb in leaves(v, lab, set()):
+                    delta = slot_of(lv) - _Pl.atom(pos)
+                    dv = delta.const_value()
+                    if dv == 0:
                         continue
-                    seenp.add(x)
-                    xd = f.defs.get(x)
-                    if xd is not None and xd.op == 'phi':
-                        stack += [y for y, _ in xd.incoming]
-                if not hit:
-                    problems.append(f'the count passed to {c.callee} ({C.val(n)}) is not the number of accepted fragments')
+                    dd = f.defs.get(strip_int_casts(f, lv) if not isptr else strip_ptr_casts(f, lv))
+                    if dv != 1:
+                        problems.append(f'the write position advances by {delta} slots')
+                    elif dd is None or not any(dd.bb is sb or _dom(idom, sb, dd.bb) or _dom(idom, sb, lb) for sb in store_blocks):
+                        problems.append('the counter is incremented outside the accepting branch')
+            n = strip_int_casts(f, cnt_arg)
+            seenp, stack, hit = set(), [n], False
+            while stack:
+                x = stack.pop()
+                xs = strip_int_casts(f, x)
+                if xs == pos or (pc.val(xs) == _Pl.atom(pos)):
+                    hit = True; break
+                if xs in seenp:
+                    continue
+                seenp.add(xs)
+                xd = f.defs.get(xs)
+                if xd is not None and xd.op == 'phi':
+                    stack += [y for y, _ in xd.incoming]
+            if not hit:
+                problems.append(f'the count passed to {c.callee} ({C.val(n)}) is not the number of accepted fragments')
         return problems
 
     for c in cons:
